@@ -1305,7 +1305,13 @@ class Parser:
         if data.get("message_defs") is not None:
             for name, mdf in data["message_defs"].items():
                 self.handle_message_def(name, mdf)
-            self.yaml_dict["message_defs"].update(data["message_defs"])
+            message_defs = dict(data["message_defs"])
+            # every file may have its own _RESERVED_ block: collect the ids instead of keeping the last block only
+            reserved = message_defs.pop("_RESERVED_", None)
+            self.yaml_dict["message_defs"].update(message_defs)
+            if reserved is not None:
+                merged = self.yaml_dict["message_defs"].setdefault("_RESERVED_", {"id": []})
+                merged["id"] = list(merged["id"]) + list(reserved["id"])
 
     def check_key_value_separation(self, text: str):
         for n, line in enumerate(text.splitlines(), start=1):
